@@ -2,4 +2,4 @@ From Coq Require Import Extraction ExtrOcamlBasic List NArith.
 From BioVerif Require Import Lib.Conv Model.BMPCodec Model.BMPRouter.
 Extraction Language OCaml.
 Extraction "c28_model.ml" conv_anchor recv decode process cleanup serve step run init observe
-  table view disposed len.
+  table view disposed len bmp_contributing_asns bmp_contributing_cluster_ids.
